@@ -84,10 +84,16 @@ func Parse(s string) (*Predicate, error) {
 	if idx < 0 {
 		return nil, fmt.Errorf("predicate.Parse could not find anchor definition in %s", raw)
 	}
+	if raw[len(raw)-1] != ']' {
+		return nil, fmt.Errorf("predicate.Parse could not find the closing ] of the anchor definition in %s", raw)
+	}
 	id, ta := raw[0:idx+1], raw[idx+3:len(raw)-1]
 	id, err := strconv.Unquote(id)
 	if err != nil {
 		return nil, fmt.Errorf("predicate.Parse can't unquote id in %s: %v", raw, err)
+	}
+	if id == "" {
+		return nil, fmt.Errorf("predicate.Parse cannot create a predicate with empty ID from %s", raw)
 	}
 	// TODO: if id has \" inside, it should be unquoted.
 	if ta == "" {
@@ -98,7 +104,7 @@ func Parse(s string) (*Predicate, error) {
 	if ta[0] == '"' {
 		ta = ta[1:]
 	}
-	if ta[len(ta)-1] == '"' {
+	if ta != "" && ta[len(ta)-1] == '"' {
 		ta = ta[:len(ta)-1]
 	}
 	pta, err := time.Parse(time.RFC3339Nano, ta)
